@@ -1,4 +1,5 @@
 import MpVerif.C16.LemmasFinal
+import MpVerif.C16.LemmasStatus
 import MpVerif.Gen.GslSkel
 /-!
 # C16 — GSL bindings return consistent derivatives or an explicit error
@@ -101,6 +102,30 @@ theorem C16_failed_check_sets_error (o : Oracle) (a : Args) (m : Mode) (e : Env)
   | bessel => exact (checkBesselArgs_ok o a m s).fail h
   | coupling => exact (checkCouplingFrom_ok a m a.n 0 s).fail h
 
+
+/-! ### every GSL status is checked against GSL_SUCCESS -/
+
+/-- **Soundness of the status-guard analysis**, for every skeleton: if `guarded body`, then in every run in which
+some GSL `_e` routine reported a status other than GSL_SUCCESS, `Errmsg` is set when the binding returns. -/
+theorem C16_status_guard_sound (body : Stmt) (h : guarded body = true) (o : Oracle) (a : Args) (m : Mode) :
+    (run body o a m).gf = true → (run body o a m).err ≠ none := by
+  intro hg herr
+  have : (run body o a m).err.isSome = true := guarded_sound o a m body h [] (St.init a) rfl (fun hgf => (nomatch hgf)) hg
+  rw [herr] at this
+  cases this
+
+set_option maxRecDepth 100000 in
+/-- every registered binding tests every GSL status in one of the three accepted shapes, i.e. against GSL_SUCCESS
+(a weakened test such as `status == GSL_EDOM || …` is translated to an opaque comparison and fails this) -/
+theorem C16_all_registered_status_guarded : registered.all (fun e => guarded e.body) = true := by decide +kernel
+
+/-- **C16_status_checked**: for every registered binding that calls a `_e` GSL routine, a non-success status sets an error -/
+theorem C16_status_checked (e : Entry) (he : e ∈ registered) (o : Oracle) (a : Args) (m : Mode) :
+    (run e.body o a m).gf = true → (run e.body o a m).err ≠ none := by
+  have h := C16_all_registered_status_guarded
+  rw [List.all_eq_true] at h
+  exact C16_status_guard_sound e.body (h e he) o a m
+
 /-! ### non-vacuity -/
 
 private def argsN (n : Nat) : Args :=
@@ -108,6 +133,7 @@ private def argsN (n : Nat) : Args :=
     dig := fun _ => false, d0 := fun _ => false, h0 := fun _ => false }
 private def quiet : Oracle := { dval := fun _ _ => false, hval := fun _ _ => false, rval := fun _ => false, cond := fun _ => false }
 private def nanHes : Oracle := { quiet with hval := fun _ _ => true }
+private def gslFails : Oracle := { quiet with cond := fun _ => true }
 
 /-- the hypotheses are satisfiable: a real skeleton run that ends without error, with all partials assigned -/
 example : (run sk_amplgsl_hypot quiet (argsN 2) ⟨true, true⟩).err = none ∧
@@ -117,6 +143,19 @@ example : (run sk_amplgsl_hypot quiet (argsN 2) ⟨true, true⟩).err = none ∧
 example : (run sk_amplgsl_hypot nanHes (argsN 2) ⟨true, true⟩).err = some .hnan := by decide
 /-- Bessel J_n: derivative requested w.r.t. the integer order ⇒ error, although the value is fine -/
 example : (run sk_amplgsl_sf_bessel_Jn { quiet with cond := fun _ => true } (argsN 2) ⟨true, false⟩).err = some .deriv := by decide
+
+/-- a GSL failure really is observable in the model (Bessel Y_n through CHECK_CALL) and ends in an evaluation error -/
+example : (run sk_amplgsl_sf_bessel_Yn gslFails (argsN 2) ⟨false, false⟩).gf = true ∧
+          (run sk_amplgsl_sf_bessel_Yn gslFails (argsN 2) ⟨false, false⟩).err = some .eval := by decide
+/-- the weakened CHECK_CALL (`status == GSL_EDOM || (status != GSL_SUCCESS && !gsl_finite(result.val))`) as the translator renders it
+is rejected, and there is a run where GSL failed and no error is set -/
+private def weakened : Stmt :=
+  .seq (.eval (.gsl 0)) (.seq (.ite (.or .opq (.and (.lb 0) (.not .opq))) (.seq .errEval .ret0) .skip) .retCheck)
+example : guarded weakened = false := by decide
+example : (run weakened { quiet with cond := fun k => k == 0 || k == 2 } (argsN 1) ⟨false, false⟩).gf = true ∧
+          (run weakened { quiet with cond := fun k => k == 0 || k == 2 } (argsN 1) ⟨false, false⟩).err = none := by decide
+/-- a status that is dropped on the floor is rejected -/
+example : guarded (.seq (.eval (.gsl 0)) .retCheck) = false := by decide
 
 /-- the analysis is not trivially true: a binding that forgets `derivs[1]` … -/
 private def forgetful : Stmt :=
